@@ -20,7 +20,7 @@ import traceback
 from typing import Any, Callable, Iterable, Optional
 
 ROOT = os.path.dirname(os.path.dirname(os.path.abspath(__file__)))
-EVIDENCE_DIR = os.path.join(ROOT, 'evidence')
+EVIDENCE_DIR = os.environ.get('VERIF_EVIDENCE_DIR') or os.path.join(ROOT, 'evidence')   # the scratch tools (seeded trees, extra seeds) redirect it
 REPLAY_DIR = os.path.join(ROOT, 'out', 'replay')
 KNOWN_FINDINGS = os.path.join(ROOT, 'known_findings.json')
 
